@@ -18,6 +18,7 @@ type Env struct {
 	fr    *Frame // locals by source name (may be nil)
 	pkg   *types.Package
 	depth int
+	loop  *loopInfo // the loop whose invariant is being evaluated ($k = its hidden range index)
 }
 
 func (x *Exec) envFor(fr *Frame, st *State, old *State) *Env {
@@ -111,6 +112,9 @@ func (e *Env) coerce(a, b Val) (Val, Val, intInfo, error) {
 	}
 	// bv mode
 	lit := func(v Val, ii intInfo) (Val, error) {
+		if v.Re != nil {
+			return scalar(nil, v.Re(ii)), nil
+		}
 		k, ok := constOf(v.One())
 		if !ok {
 			return v, fmt.Errorf("bv mode: untyped non-constant operand %s", v.One().S)
@@ -146,7 +150,9 @@ func (e *Env) Eval(ex Expr) (Val, error) {
 		if !ok {
 			return Val{}, fmt.Errorf("bad integer %s", t.V)
 		}
-		return scalar(nil, BigLit(n)), nil
+		v := scalar(nil, BigLit(n))
+		v.Re = func(ii intInfo) Term { return u.IntConst(n, ii) }
+		return v, nil
 	case EBool:
 		if t.V {
 			return scalar(types.Typ[types.Bool], True), nil
@@ -253,6 +259,10 @@ func (e *Env) Eval(ex Expr) (Val, error) {
 		for i := range a.S {
 			r.S[i] = Ite(c, a.S[i], b.S[i])
 		}
+		if a.T == nil && b.T == nil && a.Re != nil && b.Re != nil {
+			ar, br := a.Re, b.Re
+			r.Re = func(ii intInfo) Term { return Ite(c, ar(ii), br(ii)) }
+		}
 		return r, nil
 	case ESel:
 		return e.selector(t)
@@ -300,6 +310,9 @@ func (e *Env) Eval(ex Expr) (Val, error) {
 func (e *Env) ident(name string) (Val, error) {
 	if v, ok := e.names[name]; ok {
 		return v, nil
+	}
+	if name == "$k" {
+		name = "rangeindex"
 	}
 	// local variable of the frame, by source name
 	if e.fr != nil {
@@ -645,6 +658,27 @@ func (e *Env) binary(t EBinary) (Val, error) {
 			return scalar(types.Typ[types.Float64], App(t.Op, SReal, x, y)), nil
 		}
 	}
+	if (t.Op == "<<" || t.Op == ">>") && u.Mode == ModeBV && a.T != nil {
+		ai, _ := intInfoOf(a.T)
+		bt := b.One()
+		bi := ai
+		if b.T != nil {
+			bi, _ = intInfoOf(b.T)
+		} else if b.Re != nil {
+			bt = b.Re(ai)
+		} else if k, ok := constOf(bt); ok {
+			bt = BVLit(k, ai.w)
+		}
+		tk := token.SHL
+		if t.Op == ">>" {
+			tk = token.SHR
+		}
+		r, err := u.BinArith(tk, a.One(), bt, ai, bi)
+		if err != nil {
+			return Val{}, fmt.Errorf("%s: %v", t, err)
+		}
+		return scalar(a.T, r.T), nil
+	}
 	a, b, ii, err := e.coerce(a, b)
 	if err != nil {
 		return Val{}, fmt.Errorf("%s: %v", t, err)
@@ -698,7 +732,11 @@ func (e *Env) binary(t EBinary) (Val, error) {
 				r = new(big.Int).Or(ka, kb)
 			}
 			if r != nil {
-				return scalar(rt, BigLit(r)), nil
+				v := scalar(rt, BigLit(r))
+				if rt == nil {
+					v.Re = func(ii intInfo) Term { return u.IntConst(r, ii) }
+				}
+				return v, nil
 			}
 		}
 		switch t.Op {
@@ -1048,7 +1086,53 @@ func (e *Env) callExpr(t ECall) (Val, error) {
 		n.names[p.Name] = v
 	}
 	n.fr = nil
+	if sf.HasMode && sf.Mode != u.Mode {
+		return n.uninterpreted(sf)
+	}
 	return n.Eval(sf.Body)
+}
+
+// uninterpreted applies a spec function whose body cannot be expanded in this unit's integer mode:
+// an uninterpreted function of its arguments and of the state named in its reads clause
+// (so anything that leaves that state alone leaves the function's value alone).
+func (e *Env) uninterpreted(sf *SpecFunc) (Val, error) {
+	u := e.u()
+	var args []Term
+	for _, p := range sf.Params {
+		v := e.names[p.Name]
+		if v.P != nil || v.F != nil {
+			return Val{}, fmt.Errorf("%s: engine-level argument to an abstract spec function", sf.Name)
+		}
+		args = append(args, v.S...)
+	}
+	for _, it := range sf.Reads {
+		ts, err := e.x.modTargets(e, it)
+		if err != nil {
+			return Val{}, fmt.Errorf("%s reads %s: %v", sf.Name, it, err)
+		}
+		for _, t := range ts {
+			if t.All || t.Ref == nil {
+				return Val{}, fmt.Errorf("%s reads %s: not a single location", sf.Name, it)
+			}
+			args = append(args, Select(u.comp(e.st, t.Comp, t.So), *t.Ref))
+		}
+	}
+	rt, err := e.x.prog.LookupType(sf.Result, e.pkg)
+	if err != nil {
+		return Val{}, err
+	}
+	ls := u.Layout(rt)
+	if len(ls) != 1 {
+		return Val{}, fmt.Errorf("%s: abstract spec functions must return a scalar", sf.Name)
+	}
+	var sorts []Sort
+	for _, a := range args {
+		sorts = append(sorts, a.So)
+	}
+	name := "spec$" + sf.Name
+	u.DeclareFun(name, sorts, ls[0].So)
+	u.Trust("abstract spec function " + sf.Name + " (defined in another integer mode; uninterpreted here, frame by its reads clause)")
+	return scalar(rt, App(name, ls[0].So, args...)), nil
 }
 
 // globalFacts adds what is assumed about package-level variables.
